@@ -256,7 +256,8 @@ SelRangeRes(h, f, d, j1, j2) ==
        names == [s \in DOMAIN keep |-> mo.names[keep[s]]]
        n2 == [n EXCEPT ![d] = j2 - j1 + 1]
    IN AllocMF(h, reg2, subs, names, n2, LAMBDA mid, fid : Mapped(fo, mid, fid, FA!SelRangeSrc(NM(n), d, j1, j2), n2))
-(* field[name]: the mesh of the result refers to the SUBREGION OBJECT of the parent mesh (the library does) *)
+(* field[name]: the mesh of the result has its OWN region object, equal to the parent's subregion (until the *)
+(* fix c1671978 the library handed out the parent's subregion object itself: aliasing pattern P3)          *)
 SubLoIdx(h, f, s) == [d \in DOMAIN FN(h, f) |-> RFloor(RDiv(RSub(h[FM(h, f).sub[s]].lo[d], FR(h, f).lo[d]), CellQ(h, f, d)))]
 SubCount(h, f, s) == [d \in DOMAIN FN(h, f) |-> RFloor(RDiv(RSub(h[FM(h, f).sub[s]].hi[d], h[FM(h, f).sub[s]].lo[d]), CellQ(h, f, d)))]
 GetSubRes(h, f, s) ==
@@ -264,7 +265,7 @@ GetSubRes(h, f, s) ==
        a == SubLoIdx(h, f, s)
        n2 == SubCount(h, f, s)
        b == [d \in DOMAIN n |-> a[d] + n2[d] - 1]
-   IN AllocOnRegion(h, FM(h, f).sub[s], n2, LAMBDA mid, fid : Mapped(fo, mid, fid, FA!BlockSrc(NM(n), a, b), n2))
+   IN AllocMF(h, h[FM(h, f).sub[s]], <<>>, <<>>, n2, LAMBDA mid, fid : Mapped(fo, mid, fid, FA!BlockSrc(NM(n), a, b), n2))
 (* field[Region]: the smallest block of whole cells containing the region; a, b = first / last cell of the block *)
 GetRegionRes(h, f, a, b) ==
    LET fo == h[f]  ro == FR(h, f)  n == FN(h, f)
@@ -278,10 +279,11 @@ PadRes(h, f, d, l, r, mode) ==
        reg2 == DReg([ro.lo EXCEPT ![d] = RSub(@, RMul(c, R(l)))], [ro.hi EXCEPT ![d] = RAdd(@, RMul(c, R(r)))], ro.units, ro.dims)
        n2 == [n EXCEPT ![d] = @ + l + r]
    IN AllocMF(h, reg2, <<>>, <<>>, n2, LAMBDA mid, fid : Mapped(fo, mid, fid, FA!PadSrc(NM(n), d, l, r, mode), n2))
-(* resampling keeps the region: the new mesh refers to the SAME region object (the library does) *)
+(* resampling keeps the region: the new mesh has its OWN region object with the same corners (until the fix *)
+(* ac736751 the library reused the source's region object: aliasing pattern P2 created by the library)      *)
 ResampleRes(h, f, n2) ==
    LET fo == h[f]  n == FN(h, f)
-   IN AllocOnRegion(h, FM(h, f).region, n2, LAMBDA mid, fid : Mapped(fo, mid, fid, FA!ResampleSrc(NM(n), n2), n2))
+   IN AllocMF(h, FR(h, f), <<>>, <<>>, n2, LAMBDA mid, fid : Mapped(fo, mid, fid, FA!ResampleSrc(NM(n), n2), n2))
 
 (* ---- persistence as identity steps (C09, C10, C16, C17) ------------------------------------- *)
 (* a round trip returns a field on fresh objects; the formats do not store the mapping: the reader's  *)
